@@ -21,6 +21,7 @@ class FsSim:
         self.clock = 4000                     # in quarter seconds: several changes fall into one whole second
         self.main = None                      # (mtime, mapping, fmt)
         self.dstate = {d: None for d in dirs}   # None (missing) | {'mtime': t, 'entries': {name: ('file', t, mapping, fmt) | ('sub', t)}}
+        self.symlink_main = False             # True: the policy file is a symbolic link, edited by re-pointing it
         os.makedirs(root, exist_ok=True)
 
     def tick(self):
@@ -89,9 +90,21 @@ class FsSim:
     def sync(self):
         p = os.path.join(self.root, self.mainname)
         if self.main is None:
-            if os.path.exists(p):
+            if os.path.lexists(p):
                 os.remove(p)
+        elif self.symlink_main:
+            real = '%s.rev%d' % (p, self.main[0])
+            with open(real, 'w') as f:
+                f.write(self._dump(self.main[1], self.main[2]))
+            os.utime(real, (self.main[0] / SCALE, self.main[0] / SCALE))
+            tmp = p + '.lnk'
+            if os.path.lexists(tmp):
+                os.remove(tmp)
+            os.symlink(os.path.basename(real), tmp)
+            os.replace(tmp, p)               # the atomic swap deployments use
         else:
+            if os.path.islink(p):
+                os.remove(p)
             with open(p, 'w') as f:
                 f.write(self._dump(self.main[1], self.main[2]))
             os.utime(p, (self.main[0] / SCALE, self.main[0] / SCALE))
